@@ -101,6 +101,32 @@ pub fn generate(rng: &mut Rng, thorough: bool) -> Vec<String> {
         // year only through its leap-ness and the weekday of January 1st - the 28 years 2038..2065 realise all fourteen
         // combinations - so each day of the rule's months in each of these years is probed (at noon and at midnight UTC)
         if z.footer.contains(",M") && seen_footers.insert(z.footer.clone()) {
+            // ... and each of its transitions in each of these years is located to the second on the provider itself
+            // (daily samples, then bisection) and probed together with its neighbours
+            {
+                let prov = FsTzdbProvider::default();
+                let off = |t: i64| prov.get_named_tz_offset_nanoseconds(name, t as i128 * 1_000_000_000).map(|o| o.offset).unwrap_or(i64::MIN);
+                for y in 2038i64..=2065 {
+                    if !thorough && (y + k as i64) % 4 != 0 { continue; }
+                    let jan1 = temporal_rs::verif_hooks::epoch_days_from_gregorian_date(y as i32, 1, 1) as i64 * 86400;
+                    let mut prev = off(jan1);
+                    for d in 1..=366i64 {
+                        let t = jan1 + d * 86400;
+                        let cur = off(t);
+                        if cur != prev {
+                            let (mut lo, mut hi) = (t - 86400, t);
+                            while hi - lo > 1 {
+                                let mid = lo + (hi - lo) / 2;
+                                if off(mid) == prev { lo = mid } else { hi = mid }
+                            }
+                            for dd in [-1i64, 0, 3600, -3600] {
+                                v.push(format!("tzdb_off {name} {}", hi + dd));
+                            }
+                        }
+                        prev = cur;
+                    }
+                }
+            }
             let months: Vec<i64> = z.footer.split(",M").skip(1).filter_map(|r| r.split('.').next()?.parse().ok()).collect();
             for y in 2038i64..=2065 {
                 for m in &months {
